@@ -233,8 +233,6 @@ def loadProblem (j : Json) : Except String (Problem × List Slot) := do
   let kinds ← strsOf (← j.getObjVal? "surfKind")
   let nconst ← (← j.getObjVal? "nconst").getArr?
   let nconst ← nconst.toList.mapM (fun x => do let n ← x.getInt?; pure n.toNat)
-  let parens ← (← j.getObjVal? "fillParens").getArr?
-  let parens ← parens.toList.mapM (·.getBool?)
   let dflt : VNode := { value := none, negatable := false, isNeg := none }
   let p : Problem := {
     heap := fun i => nodes.getD i dflt
@@ -246,8 +244,7 @@ def loadProblem (j : Json) : Except String (Problem × List Slot) := do
     ncells := counts.getD 0 0, nsurfs := counts.getD 1 0, nmats := counts.getD 2 0
     ntrs := counts.getD 3 0, nunis := counts.getD 4 0
     surfKind := fun i => kindOf (kinds.getD i "generic")
-    nconst := fun i => nconst.getD i 0
-    fillParens := fun i => parens.getD i false }
+    nconst := fun i => nconst.getD i 0 }
   pure (p, slots.map (·.1))
 
 def runCase (j : Json) : Except String Json := do
